@@ -1,11 +1,11 @@
 ---------------------------- MODULE MC_TexInputB ----------------------------
 (* Part B: the read-stream automaton over two streams and three read files     *)
-(* (two plain lines; a multi-line brace group, an unmatched }, an empty line;   *)
+(* (a plain line, a line ended by a comment, a comment-only last line; a multi-line brace group, an unmatched }, an empty line;   *)
 (* an empty file; a file whose last line is cut short by an unmatched })        *)
 (* plus a nonexistent file (f = 0).  Dumped as an LTS for R.                    *)
 EXTENDS TexInput, TLC, Json
 T(t, c) == [t |-> t, c |-> c]
-TheFiles == << << <<T("x", 1)>>, <<T("x", 2)>> >>,
+TheFiles == << << <<T("x", 1)>>, <<T("x", 2), T("cm", 0)>>, <<T("cm", 0)>> >>,
                << <<T("x", 1), T("lb", 0)>>, <<T("x", 2), T("rb", 0), T("x", 3)>>, <<T("x", 1), T("rb", 0), T("x", 2)>>, <<>> >>,
                << >>,
                << <<T("x", 3)>>, <<T("x", 1), T("lb", 0), T("x", 2), T("rb", 0), T("rb", 0), T("x", 3)>> >> >>
